@@ -735,6 +735,69 @@ func appRelayDriver(a *Args) {
 			time.Sleep(100 * time.Millisecond)
 		}
 	}
+	// a blob write that fails in ONE of its parts while a sibling part completes later (and successfully):
+	// the call must not be reported as a success, and nothing half-written may ever be handed to the client
+	for _, which := range []string{"response", "request"} {
+		e.setLastSeen(b1.ID, time.Now())
+		big := pattern("partial-"+which, 2500000)
+		var rid string
+		var ch chan clientResult
+		if which == "request" {
+			rid, ch = e.clientRequest(b1.EndUser, "POST", "/relay/partial-"+randToken(rng, 6), big, 6*time.Second)
+		} else {
+			rid, ch = e.clientRequest(b1.EndUser, "GET", "/relay/partial-"+randToken(rng, 6), nil, 6*time.Second)
+		}
+		var armed int32 = 1
+		e.ae.PutHook = func(keys []string) (bool, time.Duration) {
+			if atomic.LoadInt32(&armed) == 0 {
+				return false, 0
+			}
+			for _, k := range keys {
+				if strings.HasPrefix(k, "blobParts|"+rid+"."+which+".part") {
+					if strings.HasSuffix(k, ".part0") {
+						return true, 0 // the first part fails at once
+					}
+					return false, 60 * time.Millisecond // its siblings succeed, later
+				}
+			}
+			return false, 0
+		}
+		st, hung := 0, false
+		var cr clientResult
+		if which == "response" {
+			e.storedUnder(rid, 10*time.Second)
+			done := make(chan int, 1)
+			go func() {
+				raw := append([]byte(fmt.Sprintf("HTTP/1.1 200 OK\r\nContent-Length: %d\r\nCache-Control: no-store\r\n\r\n", len(big))), big...)
+				s, _, _, _ := e.do(e.agPort, "POST", "/agent/response", agent(rid), raw, 20*time.Second)
+				done <- s
+			}()
+			select {
+			case st = <-done:
+			case <-time.After(10 * time.Second):
+				hung = true
+			}
+		}
+		select {
+		case cr = <-ch:
+		case <-time.After(8 * time.Second):
+		}
+		atomic.StoreInt32(&armed, 0)
+		e.ae.PutHook = nil
+		if which == "request" {
+			// the client's own store failed: it must be told (not 200), and no agent may be handed the request
+			st = cr.status
+			ids := listPending()
+			if contains(ids, rid) {
+				st = 200 // a request that could not be stored completely is listed: treated like a reported success
+			}
+		} else if cr.status == 200 && !bytes.Equal(cr.body, big) {
+			st = 200 // the client was handed bytes nobody posted: the worst kind of "success"
+		}
+		sig := "fault:partial-" + which + "-part"
+		hx.Emit("FaultCase", "sig", sig, "failed_writes", 1, "status", st, "hung", hung)
+		res.Case(sig, map[string]interface{}{"failing_part_of": which, "status": st, "hung": hung})
+	}
 	_ = sync.Mutex{}
 	_ = rand.Int
 }
